@@ -15,6 +15,7 @@ import (
 	"github.com/invopop/gobl/tax"
 	"github.com/invopop/gobl/uuid"
 	"github.com/invopop/jsonschema"
+	"github.com/invopop/validation"
 )
 
 // CorrectionOptions defines a structure used to pass configuration options
@@ -42,6 +43,18 @@ type CorrectionOptions struct {
 
 	// In case we want to use a raw json object as a source of the options.
 	data json.RawMessage `json:"-"`
+}
+
+// Validate checks the options on their own, for when they are exchanged as a
+// document. Whether they suit a given invoice is decided when correcting it.
+func (o *CorrectionOptions) Validate() error {
+	return validation.ValidateStruct(o,
+		validation.Field(&o.Type),
+		validation.Field(&o.IssueDate),
+		validation.Field(&o.Series),
+		validation.Field(&o.Stamps),
+		validation.Field(&o.Ext),
+	)
 }
 
 // WithOptions takes an already completed CorrectionOptions instance and
